@@ -2,7 +2,7 @@
    `threading_choose_num_blocks` and `threading_get_block_range` are the
    functions REGENERATED from /repo/quimb/core.py on every run (Gen/C16_gen.v). *)
 From Coq Require Import ZArith List Bool Permutation.
-From QV Require Import Base.PyZ Gen.C16_gen C16.Proofs C16.World.
+From QV Require Import Base.PyZ Gen.C16_gen C16.Proofs C16.World C16.Kernel.
 Import ListNotations.
 Open Scope Z_scope.
 
@@ -55,6 +55,28 @@ Theorem C16_par_reduce_eq_reduce : forall (A : Type) (f : A -> A -> A),
   forall l, l <> [] -> preduce A f (S (length l)) l = reduce A f l.
 Proof. exact par_reduce_eq_reduce. Qed.
 Print Assumptions C16_par_reduce_eq_reduce.
+
+(* ---- the threaded kernel schema, end to end (C16/Kernel.v, over the REGENERATED partition functions) ---- *)
+(* the rows written by all threads together - thread rank r runs blocks range(r, num_blocks, num_threads), block b
+   covers threading_get_block_range(b, ...) - are a permutation of range(size): every row exactly once *)
+Theorem C16_kernel_rows_are_exactly_range_size : forall size tbs T, 0 <= size -> 1 <= T ->
+  exists nb base rem,
+    threading_choose_num_blocks size tbs T = Some (nb, base, rem) /\
+    Permutation (all_rows base rem T nb) (zrange 0 size).
+Proof. exact kernel_rows_exact. Qed.
+Print Assumptions C16_kernel_rows_are_exactly_range_size.
+
+(* for ANY interleaving of the threads' writes out[i] = f(i) and any row function f, the final memory is the
+   serial map on [0, size) and untouched elsewhere *)
+Theorem C16_threaded_kernel_is_serial_map : forall (V : Type) (f : Z -> V) size tbs T, 0 <= size -> 1 <= T ->
+  exists nb base rem,
+    threading_choose_num_blocks size tbs T = Some (nb, base, rem) /\
+    forall (ws : list (Z * V)) (m : mem V),
+      Permutation ws (map (fun i => (i, f i)) (all_rows base rem T nb)) ->
+      (forall i, 0 <= i < size -> run V m ws i = Some (f i)) /\
+      (forall j, ~ (0 <= j < size) -> run V m ws j = m j).
+Proof. exact threaded_kernel_is_serial_map. Qed.
+Print Assumptions C16_threaded_kernel_is_serial_map.
 
 (* ---- the worker ("world") level of the parallel operator build / application (C16/World.v) ---- *)
 Close Scope Z_scope.
